@@ -184,7 +184,7 @@ PROPS = {
     ),
     "C17": dict(
         title="rerun re-executes only what was asked and converges",
-        theorems={RERUN: ["C17_reject_active", "C17_reject_unknown", "C17_accepted_resuming", "C17_only_completed_accepted"], HISTORY: ["C18_extends_rerun"],
+        theorems={RERUN: ["C17_reject_active", "C17_reject_unknown", "C17_accepted_resuming", "C17_only_completed_accepted", "C17_only_current_records_counted", "C17_canceled_needs_current_canceled"], HISTORY: ["C18_extends_rerun"],
                   FRAME: ["C17_rerun_keeps_history"]},
         keys=None, offers="ids", prof=dict(p_items=0.15, p_template=0.3, templates=[11, 11, 11, 12, 12, 12, 0, 1, 2, 6, 9]),
         hist=dict(p_fail=0.45, p_rerun=0.9, p_rerun_any=0.1, p_pause=0.1, p_odd_terminal=0.15), monitor="C17",
